@@ -520,7 +520,7 @@ impl<'a> Exec<'a> {
             self.log.push(format!("      handle obs: {:?}", oh.mask.as_ref().map(|m| { let b = set_bits(m); (b.len(), b[..b.len().min(16)].to_vec()) })));
             self.log.push(format!("      fresh  obs: {:?}", or.mask.as_ref().map(|m| { let b = set_bits(m); (b.len(), b[..b.len().min(16)].to_vec()) })));
         }
-        if let Some((field, d)) = obs_diff(&oh, &or, "handle", "fresh", lexer_err || poisoned || !self.fault_free()) {
+        if let Some((field, d)) = obs_diff_cap(&oh, &or, "handle", "fresh", lexer_err || poisoned || !self.fault_free(), self.ctx.sc.world.limits.step_max_items.max(64)) {
             if self.limit_error_latched(h) {
                 return self.skip("limit_error_in_flight");
             }
@@ -611,7 +611,7 @@ impl<'a> Exec<'a> {
             }
             for j in 1..obs.len() {
                 if let Some((field, d)) =
-                    obs_diff(&obs[0], &obs[j], &engines[0].0.clone(), &engines[j].0.clone(), false)
+                    obs_diff_cap(&obs[0], &obs[j], &engines[0].0.clone(), &engines[j].0.clone(), false, self.ctx.sc.world.limits.step_max_items.max(64))
                 {
                     return Err(self.viol(
                         "continued_equivalence",
@@ -889,7 +889,7 @@ impl<'a> Exec<'a> {
         if !self.fault_free() && (oh.mask.is_none() || or.mask.is_none()) {
             return self.skip("fault");
         }
-        if let Some((field, d)) = obs_diff(&oh, &or, "handle", "resplit", !self.fault_free()) {
+        if let Some((field, d)) = obs_diff_cap(&oh, &or, "handle", "resplit", !self.fault_free(), self.ctx.sc.world.limits.step_max_items.max(64)) {
             if self.limit_error_latched(h) {
                 return self.skip("limit_error_in_flight");
             }
@@ -1154,7 +1154,7 @@ impl<'a> Exec<'a> {
                 a.reason = String::new();
                 b.reason = String::new();
             }
-            if let Some((field, d)) = obs_diff(&a, &b, &la, &lb, false) {
+            if let Some((field, d)) = obs_diff_cap(&a, &b, &la, &lb, false, self.ctx.sc.world.limits.step_max_items.max(64)) {
                 return Err(self.viol(
                     "mirror_equivalence",
                     &format!("mirror_differs:{field}"),
